@@ -10,6 +10,7 @@ from .common import firmware, send_sites, dongle_classes
 from .c06 import _strip
 from .c07 import struct_table
 from . import c06, c07
+from sa.canon import fold_consts
 
 TECHNIQUE = ("writer/reader schema agreement between the gathering commands and the certificate "
              "parsers/verifiers (element keys, names, signed_by topology, targets, tweak source), byte-layout "
@@ -209,7 +210,15 @@ def run(run):
     built = {}
     for ctor in ("HSMCertificateV2ElementSGXQuote", "HSMCertificateV2ElementSGXAttestationKey", "HSMCertificateV2ElementX509"):
         for d, c in _element_dicts(run, sx, ctor):
-            nm = d["name"].value if "name" in d and isinstance(d["name"], ast.Constant) else None
+            nm = None
+            if "name" in d:
+                for cn in gx.nodes_of(c):
+                    vs = PV.expand_consistent(sx, None, d["name"], cn)
+                    if len(vs) == 1:
+                        try:
+                            nm = ast.literal_eval(next(iter(vs)))
+                        except (ValueError, SyntaxError):
+                            nm = None
             built[(ctor, nm)] = (d, c)
     run.check("R3", set(built) == set(want2), "the four v2 elements are built", key="sgx_attestation|elements", where=sx.loc(),
               message=f"v2 elements built: {sorted(built)}")
@@ -255,6 +264,7 @@ def run(run):
     # verifiers must be exactly the specified constructions (rules of C06 / C07, re-applied under the prefix V.)
     run.rid_prefix = "V."
     try:
+        c06.chain_walk(run, F, PV, C1)
         c06.element_check(run, F, PV, E1)
         c07._digest_element(run, F, PV, P.cls("admin.certificate_v2.HSMCertificateV2ElementSGXQuote"),
                             "hashlib.sha256(self._custom_data).digest()", "self.message.report_body.report_data.field",
@@ -345,14 +355,31 @@ def run(run):
               key="get_ui_attestation|page-data", where=ua.loc(), message="the page data appended is not response[DATA+1:]")
     # powhsm attestation result fields
     pr = P.method(PA, "run")
+    gp = A.cfg(pr, PA)
+    locs = set(PV.defs(pr, PA)) | set(pr.params)
+
+    def folded(x):
+        try:
+            return _strip(norm(fold_consts(P, ast.parse(x, mode="eval").body, pr, PA, locals_=locs)))
+        except SyntaxError:
+            return x
+    udp = pr.params[1]
+    want_r = {"app_hash": folded("self.send(Op.OP_APP_HASH)[self.Offset.DATA:].hex()"),
+              "signature": folded(f"self.send(Op.OP_GET, bytes.fromhex({udp}))[self.Offset.DATA:].hex()")}
     for r in [n for n in A.own_nodes(pr) if isinstance(n, ast.Return)]:
-        d = {k.value: norm(v) for k, v in zip(r.value.keys, r.value.values)} if isinstance(r.value, ast.Dict) else {}
-        run.check("R4", d == {"app_hash": "signer_hash.hex()", "envelope": "bufs['envelope'].hex()", "message": "bufs['message'].hex()",
-                              "signature": "signature.hex()"}, "powHSM attestation result fields", key="PowHsmAttestation.run|result", where=pr.loc(r),
-                  message=f"PowHsmAttestation.run returns {d}")
-    sgd = defs_of(A, pr, "signature")
-    shd = defs_of(A, pr, "signer_hash")
-    run.check("R4", len(sgd) == 1 and norm(sgd[0].value) == f"self.send(Op.OP_GET, bytes.fromhex({pr.params[1]}))[self.Offset.DATA:]"
-              and len(shd) == 1 and norm(shd[0].value) == "self.send(Op.OP_APP_HASH)[self.Offset.DATA:]",
-              "signature from OP_GET(ud value), app hash from OP_APP_HASH", key="PowHsmAttestation.run|sources", where=pr.loc(),
-              message="PowHsmAttestation.run: signature / app hash sources changed")
+        d = {k.value: v for k, v in zip(r.value.keys, r.value.values) if isinstance(k, ast.Constant)} if isinstance(r.value, ast.Dict) else {}
+        run.check("R4", set(d) == {"app_hash", "envelope", "message", "signature"}, "powHSM attestation result keys", key="PowHsmAttestation.run|result", where=pr.loc(r),
+                  message=f"PowHsmAttestation.run returns keys {sorted(d)}")
+        for rn in gp.nodes_of(r):
+            for k, w in want_r.items():
+                if k in d:
+                    got = {folded(x) for x in PV.expand_consistent(pr, PA, d[k], rn)}
+                    run.check("R4", got == {w}, f"result `{k}` is the data field of its answer", key=f"PowHsmAttestation.run|sources|{k}", where=pr.loc(r),
+                              message=f"PowHsmAttestation.run: `{k}` is {sorted(got)[:2]}, expected `{w}`")
+            for k in ("envelope", "message"):
+                v = d.get(k)
+                okb = isinstance(v, ast.Call) and isinstance(v.func, ast.Attribute) and v.func.attr == "hex" and not v.args \
+                    and isinstance(v.func.value, ast.Subscript) and isinstance(v.func.value.value, ast.Name) \
+                    and isinstance(v.func.value.slice, ast.Constant) and v.func.value.slice.value == k
+                run.check("R4", okb, f"result `{k}` is the hex of the buffer gathered under that name", key=f"PowHsmAttestation.run|result|{k}", where=pr.loc(r),
+                          message=f"PowHsmAttestation.run: `{k}` is `{norm(v) if v is not None else None}`, not the buffer gathered as '{k}'")
